@@ -419,17 +419,35 @@ class World:
             return out
         raise ValueError(op)
 
+    @staticmethod
+    def _num(v, vt):
+        """multiplicities arrive as python ints or as numpy integers (documented as int)"""
+        if vt == "int64" and v < (1 << 63):
+            return np.int64(v)
+        if vt == "uint64" and v < (1 << 64):
+            return np.uint64(v)
+        if vt == "uint32" and v <= U32MAX:
+            return np.uint32(v)
+        if vt == "int32" and v < (1 << 31):
+            return np.int32(v)
+        return v
+
     def _call(self, sk, ev):
         op = ev["op"]
+        vt = ev.get("vt")
         if op == "add":
             if "v" in ev:
-                sk.add(unhex(ev["key"]), ev["v"])
+                sk.add(unhex(ev["key"]), self._num(ev["v"], vt))
             else:
                 sk.add(unhex(ev["key"]))
         elif op == "update_list":
-            sk.update([unhex(k) for k in ev["keys"]])
+            ks = [unhex(k) for k in ev["keys"]]
+            sk.update(tuple(ks) if ev.get("as_tuple") else ks)
         elif op == "update_dict":
-            sk.update({unhex(k): v for k, v in ev["items"]})
+            d = {unhex(k): self._num(v, vt) for k, v in ev["items"]}
+            if ev.get("as_counter"):
+                d = Counter(d)
+            sk.update(d)
         elif op == "add_ngram":
             sk.add_ngram(unhex(ev["key"]), ev["n"])
         elif op == "update_ngram":
